@@ -65,11 +65,8 @@ def site_key(fn, arm, e, events=None):
 
 
 def conds_before(events, idx):
-    out = {}
-    for e in events[:idx]:
-        if e.kind == 'cond':
-            out[e.text] = e.truth
-    return out
+    from .efg import Conds
+    return Conds(events[:idx])
 
 
 class Classifier:
